@@ -744,7 +744,10 @@ func (a *align) Swap(rate, pos float64) (err error) {
 
 	for i := 0; i < int(nb_to_shuffle/2); i++ {
 		// We take a random position in the sequences and swap both
-		if pos < 0 || pos > 1 {
+		if nb_sites <= 0 {
+			// nothing to exchange (rand.Intn panics on 0)
+			position = 0
+		} else if pos < 0 || pos > 1 {
 			position = rand.Intn(nb_sites)
 		} else {
 			position = int(float64(nb_sites) * pos)
